@@ -99,7 +99,38 @@ NOT translated (tied by the correspondence run / oracle of `harness/props/c12.py
     of `schema/decorators.py` (`add_const_fields` …, C13); `PintQuantity.__new__`; `SIValueParser`; `QuantitativeValue` validation; the call sites
     (that pydantic calls `__get_validators__`, the root validator and `__json_encoder__` as the dictionary says).
 
-Mutation tests: see the end of this docstring (MUTATIONS).
+Mutation tests (scratch worktree of /repo, `METADOR_REPO=/tmp/tr-c12`, 2026-09-30)
+    Behaviour-changing edits — all 30 leave `build:MetadorModel.Bridge.CodecFns<File>` and the theorems of that file undischarged (run through
+    translation + `lake build` of the bridge modules; * = also through the whole `./check C12 --tier quick`, exit 1):
+      base.py    `exclude_none` forced to False * (no failing input: the replay names gen_mod_def_dump_args with the open goal
+                 `truthyJ false = truthyJ true`); `"by_alias" in kwargs`; `except Exception` in parse_raw; YAML before JSON; `__bytes__` without
+                 the newline; `min_anystr_length = 0`
+      core.py    constants added only when missing; `@root_validator` without `pre=True`; schema_extra stores `True` instead of the value;
+                 `SchemaMagic.__init__` without `super().__init__` (F4 reverted) * (oracle: 701 hits); the loop over `bases` removed
+      encoder.py `except ValueError` in the wrapped encoder; registry before the default encoder; wrap only `if not bases` (NOT TRANSLATED);
+                 duplicate-encoder check removed; `@json_encoder(str)` on Duration
+      parser.py  `not cls.strict`; `cls.validate` for non-models; the NoParserDefined guard removed; `getattr(cls, "Parser", None)` (NOT TRANSLATED)
+      types.py   the `except Exception` clause removed (F27 reverted); the empty-string test removed; Duration instances passed through;
+                 `raise RuntimeError` for `raise TypeError` in StringParser
+      common     the bool test removed (F20 reverted); `arr = (v.value, unit or "")` (F29 reverted) * (oracle: 59 hits); unitCode before unitText;
+                 `or` for `and` in the allowed-units test; `len(arr) == 2`; `infer_unit = "pixel"` for Pixels
+    Seeded changes (whole check, all exit 1 with failing inputs from the oracle): C12-s1 (json cache: `json` NOT TRANSLATED), C12-s2 (PyYAML
+      fallback: `parse_raw` NOT TRANSLATED), C12-s3 (override_consts shortcut: NOT TRANSLATED, `consts.keys() <= values.keys()`), C12-s4 and C12-t2
+      (other encoder functions: registrations NOT TRANSLATED), C12-t3 (`to_yaml_str(self, indent=2)`: `yaml` NOT TRANSLATED) — in each case
+      `translate:C12` and the bridge theorems of the affected file are undischarged (obligations 49–61 of 83–85). C12-t1 changes
+      `schema/decorators.py`, which is not translated (81/81 obligations; caught by the oracle only).
+    Behaviour-preserving edits — all stay green (K2, K3, K10 also through the whole check: PASS 81/81): renamed locals and parameters, comments
+      and docstrings; the two ifs of `_mod_def_dump_args`, the two refusals of `reg_encoder` and ignorable statements of `SchemaMagic.__init__`
+      reordered; `a if c else b` <-> if-statement (Duration.Parser, NumValue.Parser); `isinstance(v, (A, B))` <-> `isinstance(v, A) or
+      isinstance(v, B)`; `not (a or b)` for `not a and not b`; inlined / extra locals (`return tcls(v)`, `text = self.json(**kwargs)`, `consts =
+      cls.__constants__`, `kwargs = _mod_def_dump_args(kwargs)`, try result in a local); walrus unrolled into assignment + test, also with
+      `is None`; `except (ValueError, TypeError)` split into two clauses; `schema.update(x)` for `schema.update(**x)`; the str / dict blocks of
+      `NumValue.Parser.parse` swapped and chained by `elif`; `get_parser` with early `return None`; StringParser as if / elif / else;
+      `if enc is None: raise e else: return enc(obj)`.
+    Known to break the tie although harmless: any construct outside the dictionary (a helper function, comprehension instead of the loops,
+      `dict | dict`, `match`, a message built by a call other than type / str / repr, `assert` elsewhere, other spellings of the same library
+      call such as `isodate.isoduration.parse_duration`) -> `TranslateError`; a different but equivalent exception class for a refusal
+      (e.g. `ValueError` for `TypeError` where pydantic treats both alike) changes the generated term and the exact-equality bridge.
 """
 import ast
 import copy
